@@ -264,7 +264,7 @@ impl Check for C12 {
         vec!["faulty readers keep failing once they failed (as the statement says)".into()]
     }
     fn units(&self, tier: Tier) -> Vec<Unit> {
-        vec![Unit::gen("faults", 16, tier.pick(120, 3500)), Unit::enumerate("flush", 1)]
+        vec![Unit::gen("faults", 16, tier.pick(600, 6000)), Unit::enumerate("flush", 1)]
     }
     fn required_classes(&self, _tier: Tier) -> Vec<&'static str> {
         vec!["fault:reader", "fault:reader_after_first_document", "fault:writer", "fault:short_writes", "fault:flush", "from:detect", "from:yaml", "from:json", "from:msgpack", "from:toml", "to:json", "to:yaml", "to:toml", "to:msgpack"]
